@@ -101,7 +101,7 @@ def run_modules(case):
         if c is not None:
             c.cleanup()
 
-case = (['bin', '-', ['bin', '*', ['var', 'alpha'], ['var', 'beta']], ['if', ['cmp', '>', ['var', 'gamma'], ['var', 'delta']], ['var', 'delta'], ['call', 'MAX', [['var', 'alpha'], ['var', 'gamma']]]]], ['Alpha_Rate * beta - (IF Gamma_Level > DELTA THEN DELTA ELSE MAX(Alpha_Rate, Gamma_Level))'], 0, 1, 'modules')
+case = (['call', 'ABS', [['bin', '^', ['bin', '-', ['var', 'beta'], ['var', 'gamma']], ['call', 'EXP', [['time']]]]]], ['Abs((beta - (gamma_level)) ^ Exp(Time))', 'ABS((beta-Gamma_Level)^EXP(TIME))', 'ABS((beta - Gamma_Level) ^ EXP(TIME))'], 1, 0.25)
 bad = run(case)
 print("FAIL: " + bad if bad else "PASS")
 sys.stdout.flush()
